@@ -40,7 +40,7 @@ def c12(prop, tier, seed, core):
 HANDLERS["C12"] = c12
 
 
-HOSTILE = ["pre-reporter", "deep-scopes", "deep-scopes-cancelable", "wide-scope", "full-ring", "full-ring-cancelable",
+HOSTILE = ["slow-reporter-first-send", "reporter-traces", "pre-reporter", "deep-scopes", "deep-scopes-cancelable", "wide-scope", "full-ring", "full-ring-cancelable",
            "tls-A-0", "tls-B-0", "tls-C-0", "tls-R-0", "tls-A-1", "tls-B-1", "tls-C-1", "tls-R-1", "tls-A-2", "tls-B-2", "tls-C-2",
            "tls-A-3", "tls-B-3", "tls-C-3", "tls-R-3", "tls-A-0-noreporter", "tls-C-0-noreporter", "tls-R-0-noreporter",
            "tls-A-0-cancelable", "tls-C-0-cancelable", "tls-R-0-cancelable"]
